@@ -344,6 +344,35 @@ func c13StubOps() []c13Op {
 			return ""
 		})
 	}
+	// plain public keys (not certificates) of every type, both encodings: what the served agent does with them is its
+	// business, but it must receive exactly the key that was sent
+	for _, kk := range keys {
+		kk := kk
+		add("hardcert-plainkey-"+kk.n, func(cl yubiagent.YubiAgent, st *stubAgent) string {
+			st.Err = nil
+			pub := fix.Pub(kk.priv)
+			for _, legacy := range []bool{false, true} {
+				before := len(st.Calls)
+				var err error
+				if legacy {
+					_, err = cl.Forward(append([]byte{31}, pub.Marshal()...))
+				} else {
+					err = cl.AddHardCert(pub, "plain")
+				}
+				if len(st.Calls) != before+1 {
+					return fmt.Sprintf("AddHardCert(plain %s key, legacy=%v): the served agent received %d calls, err=%v", kk.n, legacy, len(st.Calls)-before, err)
+				}
+				c, m := last(st, "AddHardCert")
+				if m != "" {
+					return m
+				}
+				if !bytes.Equal(c.KeyBlob, pub.Marshal()) || err != nil {
+					return fmt.Sprintf("AddHardCert(plain %s key, legacy=%v): blob equal=%v err=%v", kk.n, legacy, bytes.Equal(c.KeyBlob, pub.Marshal()), err)
+				}
+			}
+			return ""
+		})
+	}
 	add("hardcert-legacy-encoding", func(cl yubiagent.YubiAgent, st *stubAgent) string {
 		st.Err = nil
 		resp, err := cl.Forward(append([]byte{31}, certH1.Marshal()...))
@@ -630,6 +659,7 @@ type c13Case struct {
 func c13RunOps(c *ev.Ctx, ops map[string]c13Op, names []string) {
 	c.Eval()
 	k := c13Case{Ops: names}
+	c.Crumb(k)
 	st := &stubAgent{}
 	addr := fmt.Sprintf("/verif/yubi-served-%d", worldSeq.Add(1))
 	sp := &servedPeer{}
@@ -693,6 +723,7 @@ func opClass(n string) string {
 
 func c13Piv(c *ev.Ctx, piv *pivEnv, k c13Case) {
 	c.Eval()
+	c.Crumb(k)
 	w, err := newYWorld(k.Remote)
 	if err != nil {
 		c.Violation("C13:harness:newserver", err.Error(), k)
@@ -800,7 +831,7 @@ func errClassY(err error) string {
 }
 
 func checkC13(c *ev.Ctx) {
-	c.Rule("yubiagent.NewClient through the dial seam; the peer runs the real ServeAgent synchronously per request over (i) a recording YubiAgent with scripted results and (ii) the real server with a fake yubico-piv-tool. Every operation alone: List (0..3 keys, comments '', ascii, UTF-8, 300 bytes), SignWithFlags (3 key types x data {0,1,64,65536} x flags {0,2,4,6}), Add (3 key types x cert x lifetime {0,1,2^32-1} x confirm), Remove, RemoveAll, Lock/Unlock (5 passphrases), Signers, AddHardCert (client and legacy encoding, 4 comments), Wait (6 codes), slot operations (slot names, 2 certificate sizes), raw Forward (3 bodies x 4 replies up to 70 KB), Extension, smart-card requests, scripted failures with 5 error texts; transport failures: the response of each of 16 operations cut after {0, 2, 4 bytes, half the body, all but the last byte} and the stream ended (the call must return an error); held results (6 value-returning operations x 16 following operations: the kept bytes must not change); every ordered pair over a 30-operation generating set; PIV tool outputs (well-formed status, 'Slot' alone, 'Slot 9' (6 chars), 'Slot 9a' (7), 'Slot9a:', CRLF, empty, 1 MiB, exit status 1, PEM/garbage for read/attest) in local and remote mode. non-trivial = operation sequence whose arguments and results were compared; distinct by sequence")
+	c.Rule("yubiagent.NewClient through the dial seam; the peer runs the real ServeAgent synchronously per request over (i) a recording YubiAgent with scripted results and (ii) the real server with a fake yubico-piv-tool. Every operation alone: List (0..3 keys, comments '', ascii, UTF-8, 300 bytes), SignWithFlags (3 key types x data {0,1,64,65536} x flags {0,2,4,6}), Add (3 key types x cert x lifetime {0,1,2^32-1} x confirm), Remove, RemoveAll, Lock/Unlock (5 passphrases), Signers, AddHardCert (client and legacy encoding, 4 comments, certificates and plain keys of 3 key types), Wait (6 codes), slot operations (slot names, 2 certificate sizes), raw Forward (3 bodies x 4 replies up to 70 KB), Extension, smart-card requests, scripted failures with 5 error texts; transport failures: the response of each of 16 operations cut after {0, 2, 4 bytes, half the body, all but the last byte} and the stream ended (the call must return an error); held results (6 value-returning operations x 16 following operations: the kept bytes must not change); every ordered pair over a 30-operation generating set; PIV tool outputs (well-formed status, 'Slot' alone, 'Slot 9' (6 chars), 'Slot 9a' (7), 'Slot9a:', CRLF, empty, 1 MiB, exit status 1, PEM/garbage for read/attest) in local and remote mode. non-trivial = operation sequence whose arguments and results were compared; distinct by sequence")
 	c.Assume("error texts exactly 'SUCCESS' / '' and extension payloads that are empty or start with byte 5/28 are in-band protocol artefacts, excluded from the alphabet", "private keys are compared through their public keys")
 	ops := map[string]c13Op{}
 	list := c13StubOps()
@@ -848,7 +879,7 @@ func checkC13(c *ev.Ctx) {
 		}
 	}
 	gen := []string{"list-2", "list-error", "sign-ed25519-data64-flags0", "sign-rsa-data65536-flags2", "sign-error", "add-ed25519-certfalse-life1-confirmfalse", "add-rsa-certtrue-life4294967295-confirmtrue",
-		"error-Add", "remove-ecdsa", "error-Remove", "remove-all", "Lock-pass1", "Unlock-pass300", "error-Unlock", "signers", "hardcert-comment13", "hardcert-legacy-encoding", "hardcert-keytype-rsa", "hardcert-keytype-ecdsa", "hardcert-error-x",
+		"error-Add", "remove-ecdsa", "error-Remove", "remove-all", "Lock-pass1", "Unlock-pass300", "error-Unlock", "signers", "hardcert-comment13", "hardcert-legacy-encoding", "hardcert-keytype-rsa", "hardcert-keytype-ecdsa", "hardcert-plainkey-ed25519", "hardcert-error-x",
 		"hardcert-error-SUCCESSO", "wait-40", fmt.Sprintf("wait-error-%.8s", "échec ü"), "listslots-3", "listslots-error-x", "ReadSlot-cert0-slot\"9a\"", "AttestSlot-cert1-slot\"\"", "readslot-error-x",
 		"forward-201-len1-resp1", "forward-202-len65537-resp70000", "extension-payload", "extension-unsupported", "smartcard-add"}
 	var genOK []string
